@@ -392,7 +392,8 @@ class AConc(ABase):
 class Job:
     def __init__(self, prop, name, build, body, fresh_empty=False, timeout_s=600, extra_patches=None,
                  max_decisions=100000, solver_timeout_ms=30000, funcs=(), bounds=None, exc_policy='skip',
-                 lattice=10, xval=True, exact_floats=True):
+                 lattice=10, xval=True, exact_floats=True, lstsq_exact=False):
+        self.lstsq_exact = lstsq_exact  # np.linalg.lstsq solutions satisfy the normal equations (default: arbitrary reals)
         self.prop = prop
         self.name = name
         self.build = build
@@ -707,6 +708,7 @@ class Runner:
     def path(self, ctx):
         job = self.job
         S.NP.fresh_empty = job.fresh_empty
+        S.NP.linalg.exact = job.lstsq_exact
         live = job.build(ctx)
         # the code under test may modify its arguments: witnesses are taken from a pristine copy (same terms)
         self.inputs = _copy_inputs(live)
@@ -859,6 +861,7 @@ class Runner:
         finally:
             unpatch_all()
             S.NP.fresh_empty = False
+            S.NP.linalg.exact = False
         self.res.complete = complete
         self.res.leftover = [tuple(p) for p in left]
         self.res.wall = time.time() - t0
